@@ -17,7 +17,7 @@ CHECKS = {
 
 CHECKS['C04'] = ('model_checking',
     'symbolic execution of the real naming/column-conversion code with CrossHair/z3 (symbolic columns, boundary-pool rows)',
-    'Bounded symbolic checking: column letters<->numbers inverse both ways on all 16384 columns / every [A-Za-z]{1,3} spelling; fast_range2parts (v1-v4) names every rectangle with symbolic columns and boundary-pool rows exactly as the statement\'s canonical text (hence injectively), identically for A1/R1C1 numbering, letter case and the redundant A1:A1 form.',
+    'Bounded symbolic checking: column letters<->numbers inverse both ways on all 16384 columns / every [A-Za-z]{1,3} spelling; fast_range2parts (v1-v4) names every rectangle with symbolic columns and boundary-pool rows exactly as the statement\'s canonical text (hence injectively), identically for A1/R1C1 numbering, letter case and the redundant A1:A1 form. By selectors through the real tokenizer: A1 range texts with both corners over 8 boundary columns x 8 boundary rows, $ markers and letter case are ONE reference token naming exactly that rectangle.',
     'Regex capture semantics assumed (captures are the substrings written); rows from a boundary pool, not symbolic; sheet ids and relative R[..]C[..] forms bounded (selectors). ' + TB,
     'DESIGN.md §3 C04')
 
@@ -29,14 +29,14 @@ CHECKS['C01'] = ('model_checking',
 
 CHECKS['C20'] = ('model_checking',
     'concolic symbolic execution of the real date/time/base-conversion functions on z3 proxies (LIA, QF_BV, QF_BVFP; z3 + cvc5), CrossHair for ROMAN/ARABIC',
-    'Bounded symbolic checking of the real functions: every serial 0..2958465 converts to the date Excel shows and DATE returns it; DATE month/day roll-over equals Excel calendar arithmetic for bounded month/day offsets; WEEKDAY steps by one per day in all 10 modes over all serials; HOUR/MINUTE/SECOND invert TIME for every second of the checked hours (IEEE-754 doubles, bit-precise); DEC2BIN/OCT/HEX and inverses are mutually inverse on the whole domain with #NUM! outside; ROMAN/ARABIC round trip over the selector range.',
+    'Bounded symbolic checking of the real functions: every serial 0..2958465 converts to the date Excel shows and DATE returns it; DATE month/day roll-over equals Excel calendar arithmetic for bounded month/day offsets; WEEKDAY steps by one per day in all 10 modes over all serials; HOUR/MINUTE/SECOND invert TIME for every second of the checked hours (IEEE-754 doubles, bit-precise); DEC2BIN/OCT/HEX and inverses are mutually inverse on the whole domain with #NUM! outside (numbers symbolically; 32 texts with signs, prefixes, blanks, foreign digits by selectors); ROMAN/ARABIC round trip over the selector range.',
     'datetime/calendar shim (validated, injectivity proved), abstract numerals for bin/oct/hex, float->int guard < 2^62; quick tier: 8 of 24 hours, ROMAN n <= 447; cross conversions through schedula outside. Known finding C20-date-rollover-feb1900 excluded by predicate. ' + TB,
     'DESIGN.md §3 C20')
 
 CHECKS['C18'] = ('model_checking',
     'symbolic execution of the real parser with CrossHair/z3 over selector-chosen token sequences; z3 string/regex queries over the live token patterns; concolic run of Number.compile on a symbolic literal',
-    'Bounded symbolic checking: every token sequence of length <= 3 (quick) / 4 (thorough) over a 20-word vocabulary and every single-token edit of 6 valid formulas makes the real Parser().ast return a formula or raise FormulaError - nothing else - and the statement\'s syntactic rejection classes are rejected; every string of the numeric-literal language read from the live regex is converted without exception (unbounded alphabet, length <= 12); each token pattern consumes at least one character.',
-    'Token spellings are selectors (bounded exhaustive); arbitrary character strings outside; numeric VALUE semantics of int()/float() trusted. ' + TB,
+    'Bounded symbolic checking: every token sequence of length <= 3 (quick) / 4 (thorough) over a 23-word vocabulary (tab, line break, a lower-case error literal included) and every single-token edit of 7 valid formulas makes the real Parser().ast return a formula or raise FormulaError - nothing else - and the statement\'s syntactic rejection classes are rejected; every string of the numeric-literal language read from the live regex is converted without exception (unbounded alphabet, length <= 12); each token pattern consumes at least one character.',
+    'Token spellings are selectors (bounded exhaustive); arbitrary character strings outside; known finding C18-colon-without-first-corner excluded by predicate; numeric VALUE semantics of int()/float() trusted. ' + TB,
     'DESIGN.md §3 C18')
 
 CHECKS['C02'] = ('model_checking',
@@ -65,13 +65,13 @@ CHECKS['C08'] = ('exploration',
 
 CHECKS['C14'] = ('fault_enumeration',
     'CrossHair/z3 path exploration over the fault schedule (boolean selectors); the real from_dict / finish / calculate run on every explored schedule against a dependency oracle',
-    'Exhaustive fault enumeration driven by the symbolic executor: all 10^3 x 2 schedules of {none, unknown function, _xlfn. unknown function, absent sheet, absent workbook, undefined name, #REF! literal, range on an absent sheet, unreadable workbook file, two undefined names in one formula} over three dependent formula cells: loading, completion and calculation never raise; the faulted cell is #NAME? / #REF! as the statement assigns; cells that do not depend on it keep their fault-free values; dependents carry an error that IFERROR / ISERROR intercept.',
-    'Dictionary-built 10-cell template only; file-level faults represented by references to absent books. Known finding C14-absent-range-overrides-known-cells printed from its witness. ' + TB,
+    'Exhaustive fault enumeration driven by the symbolic executor: all 10^3 x 2 schedules of {none, unknown function, _xlfn. unknown function, absent sheet, absent workbook, undefined name, #REF! literal, range on an absent sheet, unreadable workbook file, two undefined names in one formula} over three dependent formula cells: loading, completion and calculation never raise; the faulted cell is #NAME? / #REF! as the statement assigns; cells that do not depend on it keep their fault-free values; dependents carry an error that IFERROR / ISERROR intercept. The same for a workbook read from a FILE (names from its name table): 100 schedules of 10 faults incl. defined names over an undefined name and unknown functions with non-ASCII names.',
+    'Dictionary-built 10-cell template and a one-sheet file-backed workbook; absent books = references to files that do not exist. Known finding C14-absent-range-overrides-known-cells printed from its witness. ' + TB,
     'DESIGN.md §3 C14')
 
 CHECKS['C19'] = ('model_checking',
     'symbolic execution of the real MATCH / INDEX kernels with CrossHair/z3 (symbolic integer keys, lookup values, row and column numbers); selector exploration for text keys, tables and criteria',
-    'Bounded symbolic checking: xmatch returns the last key <= v (ascending) / >= v (descending) / the first equal key for EVERY vector of up to 5 symbolic integer keys and every lookup value; _index returns the element at (row, column), #REF! outside and #VALUE! below zero for symbolic row / column on all shapes up to 3x3; by selectors: wildcard / case-insensitive / own-type exact MATCH on a mixed vector, VLOOKUP / HLOOKUP / LOOKUP equal INDEX of MATCH on 5 key columns x 12 keys x 4 result columns x 2 modes, COUNTIF / SUMIF / AVERAGEIF select exactly the own-type elements satisfying each of 13 criteria over all element triples of a 10-entry pool.',
+    'Bounded symbolic checking: xmatch returns the last key <= v (ascending, equal keys allowed) / >= v (descending) / the first equal key for EVERY vector of up to 5 symbolic integer keys and every lookup value; _index returns the element at (row, column), #REF! outside and #VALUE! below zero for symbolic row / column on all shapes up to 3x3; by selectors: wildcard / case-insensitive / own-type exact MATCH on a mixed vector, VLOOKUP / HLOOKUP / LOOKUP equal INDEX of MATCH on 5 key columns x 12 keys x 4 result columns x 2 modes (and the last argument left out), COUNTIF / SUMIF / AVERAGEIF select exactly the own-type elements satisfying each of 13 criteria over all element triples of a 10-entry pool.',
     'Integer keys only (no floats) in the symbolic part; text / criteria / tables from pools (bounded exhaustive); INDEX row/column 0 outside. ' + TB,
     'DESIGN.md §3 C19')
 
@@ -107,7 +107,7 @@ CHECKS['C09'] = ('exploration',
 
 CHECKS['C11'] = ('exploration',
     'CrossHair/z3 path exploration over (function, argument count, argument values) selectors covering the whole function table; every explored path calls the public registered function',
-    'Bounded exhaustive exploration driven by the symbolic executor over all ~247 names of the function table: with the required number of arguments (and one / two more for variadic functions) drawn from pools of numbers, logicals, text, numeric text, blank, error values and 1x2 / 2x1 arrays, no call raises and every result consists of Excel values only (finite numbers, text, logicals, errors, blanks, arrays of these); for every function outside the documented error-handling / inspection / selection list an error value in any argument position yields an error in every element of the result.',
+    'Bounded exhaustive exploration driven by the symbolic executor over all ~247 names of the function table: with the required number of arguments (and one / two more for variadic functions) drawn from pools of numbers, logicals, text, numeric text, blank, error values and 1x2 / 2x1 arrays, no call raises and every result consists of Excel values only (finite numbers, text, logicals, errors, blanks, arrays of these); for every function outside the documented error-handling / inspection / selection list an error value in any argument position yields an error in every element of the result. The same for 31-40 arguments of variadic functions (both sides of numpy\'s 32-operand limit). Known finding C11-overflow-to-infinity (non-finite results) excluded by predicate.',
     'Pools, not all argument tuples; optional arguments not exercised; quick tier runs the 3-argument pool on a seeded quarter of the table. ' + TB,
     'DESIGN.md §3 C11')
 
